@@ -1380,7 +1380,24 @@ func (c *Core) serviceRequest(ranID int64, env nas.Envelope, tmsiIE *ngap.FiveGS
 		c.viol("svc.ngksi", "SERVICE REQUEST carries ngKSI %d, the current context is ngKSI %d", u.NgKSI&7, ue.P.NgKSI)
 	}
 	ue.SvcPending = true
-	ue.SvcWithPDU = ue.P.SvcPDU && ue.SessActive
+	indicated := false
+	if uds := u.Get(0x40); uds != nil && ue.SessActive {
+		psis := []int{}
+		for i := 0; i < 16 && i/8 < len(uds); i++ {
+			if uds[i/8]&(1<<uint(i%8)) != 0 {
+				psis = append(psis, i)
+				if i == ue.PSI {
+					indicated = true
+				}
+			}
+		}
+		c.cur.Info["uplink_data_status"] = psis
+		if !indicated {
+			c.viol("psi.uplink-data-status", "uplink data status names PDU session(s) %v, the UE's only session is %d", psis, ue.PSI)
+		}
+	}
+	// the session is re-activated when the UE indicated it or the network has downlink data pending
+	ue.SvcWithPDU = ue.SessActive && (indicated || ue.P.SvcPDU)
 	var psiStatus []byte
 	acc := c.protectDL(ue, 2, nas.ServiceAccept(psiStatus, nil))
 	ies := []ngap.IE{
